@@ -2,9 +2,15 @@ module verifharness
 
 go 1.22.0
 
-require github.com/stevenh/tracktools v0.0.0
+require (
+	github.com/stevenh/tracktools v0.0.0
+	github.com/tidwall/geodesic v1.52.4
+)
 
-require gonum.org/v1/gonum v0.15.1 // indirect
+require (
+	golang.org/x/text v0.21.0 // indirect
+	gonum.org/v1/gonum v0.15.1
+)
 
 replace github.com/stevenh/tracktools => /repo
 
